@@ -1181,6 +1181,17 @@ static inline bool atom_live() { return g_active && t_tid >= 0; }
 
 static inline void real_copy(void* dst, const volatile void* src, unsigned sz) { memcpy(dst, (const void*)src, sz); }
 
+// debugging aid (--param trace=1) for sequentially consistent cases: one line per atomic operation
+static void sc_trace(const char* what, const volatile void* a, unsigned sz, const void* v1, const void* v2) {
+  uint64_t x = 0, y = 0;
+  memcpy(&x, v1, sz < 8 ? sz : 8);
+  if (v2) memcpy(&y, v2, sz < 8 ? sz : 8);
+  if (v2)
+    fprintf(stderr, "T%d step %lu %s %p: %lx -> %lx\n", t_tid, (unsigned long)G.step, what, (void*)a, (unsigned long)x, (unsigned long)y);
+  else
+    fprintf(stderr, "T%d step %lu %s %p: %lx\n", t_tid, (unsigned long)G.step, what, (void*)a, (unsigned long)x);
+}
+
 extern "C" void vrt_atomic_load(const volatile void* a, unsigned sz, int mo, void* out) {
   if (!atom_live()) {
     real_copy(out, a, sz);
@@ -1190,8 +1201,10 @@ extern "C" void vrt_atomic_load(const volatile void* a, unsigned sz, int mo, voi
   sched_point_ex(true);
   if (weak())
     weak_load((uintptr_t)a, sz, mo, out);
-  else
+  else {
     real_copy(out, a, sz);
+    if (g_trace) sc_trace("load ", a, sz, out, nullptr);
+  }
 }
 
 extern "C" void vrt_atomic_store(volatile void* a, unsigned sz, int mo, const void* val) {
@@ -1203,8 +1216,10 @@ extern "C" void vrt_atomic_store(volatile void* a, unsigned sz, int mo, const vo
   sched_point();
   if (weak())
     weak_store((uintptr_t)a, sz, mo, val);
-  else
+  else {
     memcpy((void*)a, val, sz);
+    if (g_trace) sc_trace("store", a, sz, val, nullptr);
+  }
   note_write();
 }
 
@@ -1231,6 +1246,7 @@ extern "C" void vrt_atomic_xchg(volatile void* a, unsigned sz, int mo, const voi
   } else {
     real_copy(tmp, a, sz);
     memcpy((void*)a, val, sz);
+    if (g_trace) sc_trace("xchg ", a, sz, tmp, val);
   }
   memcpy(out, tmp, sz);
   note_write();
@@ -1283,10 +1299,12 @@ extern "C" int vrt_atomic_cas(volatile void* a, unsigned sz, int mo_s, int mo_f,
     return 0;
   }
   if (equal && !spurious) {
+    if (g_trace) sc_trace("cas+ ", a, sz, expected, desired);
     memcpy((void*)a, desired, sz);
     note_write();
     return 1;
   }
+  if (g_trace) sc_trace("cas- ", a, sz, (const void*)a, nullptr);
   if (!spurious) real_copy(expected, a, sz);
   return 0;
 }
@@ -1324,6 +1342,7 @@ extern "C" uint64_t vrt_atomic_rmw(volatile void* a, unsigned sz, int mo, int op
     real_copy(&old, a, sz);
     uint64_t nv = apply(old);
     memcpy((void*)a, &nv, sz);
+    if (g_trace) sc_trace("rmw  ", a, sz, &old, &nv);
   }
   note_write();
   return old;
